@@ -16,12 +16,14 @@ tvars == <<ovars, l>>
 
 TInit == /\ CursorInit
          /\ file = "missing" /\ since = {} /\ torn = FALSE /\ inop = FALSE /\ evaluated = "missing"
-         /\ loaded = "missing" /\ cbp = FALSE /\ tStable = 0 /\ tCb = 0 /\ bound = 0
+         /\ loaded = "missing" /\ cbp = FALSE /\ win = FALSE /\ shaky = FALSE
+         /\ tStable = 0 /\ tCb = 0 /\ bound = 0
 TReset == IsEv("reset") /\ OReset(Rec.init, Rec.interval + Rec.debounce + SlackMs)
 TOpB == IsEv("op.begin") /\ OpBegin(Rec.kind, Rec.c)
 TOpE == IsEv("op.end") /\ OpEnd(Rec.t)
 TRec == IsEv("rw.reconcile") /\ Reconcile(Rec.fp)
-TFire == IsEv("rw.fire") /\ UNCHANGED ovars
+TFire == IsEv("rw.fire") /\ win' = (win /\ cbp)
+         /\ UNCHANGED <<file, since, torn, inop, evaluated, loaded, cbp, shaky, tStable, tCb, bound>>
 TCall == IsEv("rw.callback") /\ Callback(Rec.fp)
 TCb == IsEv("cb") /\ CbRead(Rec.read, Rec.t)
 TSet == IsEv("settled") /\ Settled
